@@ -87,6 +87,30 @@ func ThirdTarget(r *vf.Run) {
 	}
 }
 
+// ConfigChildren: configurations the library's own source reveals (found by ./check scanning it): a build
+// tag that selects files gets a child built with that tag; an environment variable the library reads
+// gets children that run with it set to the short string literals of the file that reads it. None of the
+// properties is stated for one configuration only. On the pinned tree there is nothing to find.
+func ConfigChildren(r *vf.Run) {
+	if os.Getenv("VERIF_CHILD") != "" || r.OnlyPhase != "" {
+		return
+	}
+	for _, tb := range strings.Fields(os.Getenv("VERIF_TAG_BINS")) {
+		if i := strings.IndexByte(tb, '='); i > 0 && r.ID != "C18" {
+			runChildExe(r, tb[i+1:], "build-tag-"+tb[:i])
+		}
+	}
+	probes := strings.Fields(os.Getenv("VERIF_ENV_PROBES"))
+	if len(probes) > 16 {
+		probes = probes[:16]
+	}
+	for _, kv := range probes {
+		if r.ID != "C18" {
+			runChild(r, "environment-"+kv, kv)
+		}
+	}
+}
+
 // ErrorsFirstChild: for the monitors that are cheap enough, one more child on the native target whose
 // first use of the library is ErrorsFirst (the 386 child of every monitor starts that way as well).
 func ErrorsFirstChild(r *vf.Run) {
@@ -102,7 +126,7 @@ func runChildExe(r *vf.Run, exe, label string, env ...string) {
 	_ = os.MkdirAll(out, 0o755)
 	defer os.RemoveAll(out)
 	tier := r.Tier
-	if label == "goarch-386" {
+	if label == "goarch-386" || strings.HasPrefix(label, "build-tag-") || strings.HasPrefix(label, "environment-") {
 		tier = "quick" // the other target is about the environment, not about depth
 	}
 	cmd := exec.Command(exe, r.ID, tier)
